@@ -10,6 +10,14 @@ PH = importlib.import_module("chuk_mcp.server.protocol_handler")
 JM = importlib.import_module("chuk_mcp.protocol.messages.json_rpc_message")
 MM = importlib.import_module("chuk_mcp.protocol.messages.message_method")
 VER = importlib.import_module("chuk_mcp.protocol.types.versioning")
+# the set of versions the library supports is PINNED when the harness is imported: the oracle must not follow a
+# list that the code under test can change at run time, and every harness call starts from the pinned set
+SUP0 = tuple(VER.SUPPORTED_VERSIONS)
+
+
+def _reset_supported():
+    if list(VER.SUPPORTED_VERSIONS) != list(SUP0):
+        VER.SUPPORTED_VERSIONS[:] = list(SUP0)
 JSONRPCMessage = JM.JSONRPCMessage
 import harness.h_C19 as _h19  # noqa: E402  installs the time.time stub (integer instants) and the uuid4 counter for the session store
 
@@ -54,6 +62,7 @@ def _raise_kind(hsel, text):
 
 
 def make_server(hsel, text="boom"):
+    _reset_supported()
     s = SRV.MCPServer("srv", "1.0")
 
     async def tool(**kw):
@@ -292,7 +301,7 @@ def init_version(req_kind, v, sidx):
     if req_kind == 0:
         requested = v
     elif req_kind == 1:
-        requested = VER.SUPPORTED_VERSIONS[0] if sidx == 0 else (VER.SUPPORTED_VERSIONS[1] if sidx == 1 else VER.SUPPORTED_VERSIONS[-1])
+        requested = SUP0[0] if sidx == 0 else (SUP0[1] if sidx == 1 else SUP0[-1])
     elif req_kind == 2:
         requested = 20250618
     elif req_kind == 3:
@@ -317,7 +326,7 @@ def init_version(req_kind, v, sidx):
             return "supported-version-refused"
         return "ok"
     ans = (d.get("result") or {}).get("protocolVersion")
-    sup = list(VER.SUPPORTED_VERSIONS)
+    sup = list(SUP0)
     if not isinstance(ans, str) or not _in(ans, sup):
         return "acknowledged-unsupported-version"
     req_supported = isinstance(requested, str) and _in(requested, sup)
@@ -340,7 +349,7 @@ def _in(v, lst):
 
 def near_version(i, mode, k, c):
     """requested version within one edit of a supported one: mode 0 = append c, 1 = prepend c, 2 = substitute position k by c"""
-    base = VER.SUPPORTED_VERSIONS[0] if i == 0 else (VER.SUPPORTED_VERSIONS[1] if i == 1 else VER.SUPPORTED_VERSIONS[-1])
+    base = SUP0[0] if i == 0 else (SUP0[1] if i == 1 else SUP0[-1])
     if mode == 0:
         v = base + c
     elif mode == 1:
@@ -359,7 +368,7 @@ def reinit(first_idx, v):
     """two handshakes on one handler: the second presents the session id issued by the first and requests v;
     the session the second handshake returns must record the version the second answer carries"""
     s = make_server(0)
-    sup = list(VER.SUPPORTED_VERSIONS)
+    sup = list(SUP0)
     first = sup[0] if first_idx == 0 else (sup[1] if first_idx == 1 else sup[-1])
 
     def init(version, sid):
@@ -462,7 +471,7 @@ def init_long(k, form, sidx):
     """requested protocolVersion = a supported version (0) followed by, (1) preceded by, (2) split in the middle by
     n characters, or (3) n characters of digits and dashes; n = c-1, c, c+1.  n = 0 requests the supported version"""
     n = _sizes.pick(_sizes.size_cases(70000, extra=_sizes.ENV_SIZES), k)
-    sv = VER.SUPPORTED_VERSIONS[0] if sidx == 0 else (VER.SUPPORTED_VERSIONS[1] if sidx == 1 else VER.SUPPORTED_VERSIONS[-1])
+    sv = SUP0[0] if sidx == 0 else (SUP0[1] if sidx == 1 else SUP0[-1])
     pad = "x" * n
     if form == 0:
         v = sv + pad
@@ -479,7 +488,7 @@ def init_nth(k, sidx, v_unsupported, lim=410):
     """the (n+1)-th initialize on one server (n earlier handshakes at supported versions): answered like the first"""
     n = _sizes.pick(_sizes.size_cases(lim), k)
     s = make_server(0)
-    sup = list(VER.SUPPORTED_VERSIONS)
+    sup = list(SUP0)
     for i in range(n):
         m = JSONRPCMessage(jsonrpc="2.0", id=i, method="initialize", params={"protocolVersion": sup[i % len(sup)], "clientInfo": {"name": "c%d" % i, "version": "1"}, "capabilities": {}})
         resp, sid = drive(s.protocol_handler.handle_message(m, None))
@@ -504,4 +513,39 @@ def init_nth(k, sidx, v_unsupported, lim=410):
         return "session-version-differs-from-answer"
     if s.protocol_handler.session_manager.get_session_count() != n + 1:
         return "sessions-lost-or-duplicated"
+    return "ok"
+
+
+def init_twice(v, other_server, third):
+    """the same (arbitrary) version is requested two or three times, on one server or on a second server of the
+    same process: every answer must be a supported version - a refusal remembered from the first request must not
+    turn into an acknowledgement later"""
+    s = make_server(0)
+    servers = [s, (make_server(0) if other_server else s)]
+    # (make_server resets the library's supported list: build both before the first request)
+    n = 3 if third else 2
+    for j in range(n):
+        srv = servers[min(j, 1)]
+        m = JSONRPCMessage(jsonrpc="2.0", id=j, method="initialize", params={"protocolVersion": v, "clientInfo": {"name": "c", "version": "1"}, "capabilities": {}})
+        try:
+            resp, sid = drive(srv.protocol_handler.handle_message(m, None))
+        except HarnessError:
+            raise
+        except Exception as e:
+            return "initialize-raised:" + type(e).__name__
+        if resp is None:
+            return "no-response"
+        d = dump(resp)
+        if "error" in d:
+            if _in(v, list(SUP0)):
+                return "supported-version-refused"
+            continue
+        ans = (d.get("result") or {}).get("protocolVersion")
+        if not isinstance(ans, str) or not _in(ans, list(SUP0)):
+            return "acknowledged-unsupported-version:request-%d" % (j + 1)
+        if _in(v, list(SUP0)) and ans != v:
+            return "supported-request-answered-with-other-version"
+        rec = srv.protocol_handler.session_manager.get_session(sid) if sid is not None else None
+        if rec is None or rec.protocol_version != ans:
+            return "session-version-differs-from-answer"
     return "ok"
